@@ -187,7 +187,47 @@ def run_C10(ctx):
                          dict(kind="image", case=cases[i][:6000], mutation={k: v for k, v in meta[i].items() if k != "img"},
                               observed=(p_seq.state_of_stat(f[1]) + " " + f[2])[:800], expected=(sf[-2] + " " + sf[-1])[:800]))
     ctx.k_checks["oracle-recovered-state-is-spec-prefix"] = (bad2 == 0, len(sample))
-    ctx.cov["evaluations"] = len(cases)
+    # what was recovered stays readable under cache pressure: open with a zero-size cache,
+    # read, drain everything evictable, read again (entries of the chunk that recovery
+    # re-opens as the open chunk exist nowhere but in the cache until they are flushed).
+    # Histories with a truncation are left out: a re-appended id below the eviction
+    # boundary is finding F2 of C07.
+    DRAIN = "G ; R 0 100000 ; E ; R 0 100000 ; D ; H"
+    dcases, dmeta = [], []
+    for im in imgs:
+        if any(o.startswith("T") for o, _ in im["ops"]):
+            continue
+        disk = im["disk"]
+        fid, data = disk[-1]
+        bounds = [0] + [o + l for (_, o, l) in im["recs"][-1][1]]
+        ps = sorted(set([0, 1, bounds[1] // 2, bounds[1] - 1, bounds[1]] + bounds + [b + 1 for b in bounds if b + 1 <= len(data)]
+                        + [rnd.randrange(len(data) + 1) for _ in range(4)]))
+        for p in ps:
+            for cc in ("0 0", "1 10", "2 1073741824"):
+                dcases.append(img_case("%s %d 1073741824 1 %d" % (cc, rnd.choice([2, 4, 100000]), rnd.choice(gen.CFG_RBUF)), disk[:-1] + [(fid, data[:p])], DRAIN))
+                dmeta.append(dict(p=p, cache=cc))
+    if dcases:
+        di = C.run_impl(dcases, ctx.wd, "drain")
+        dm = C.run_model(dcases, ctx.wd, "drain")
+        core.compare(ctx, "recover-then-drain-cache", dcases, di, dm)
+        bad3 = 0
+        for c, m, a in zip(dcases, dmeta, di):
+            f = p_seq.fields(a)
+            why = None
+            if "panic" in f:
+                why = "panic after recovery"
+            elif f[0] == "opened":
+                if any(x.startswith("err") for x in f[2].split()[1:]):
+                    why = "an entry of the recovered store is unreadable: " + f[2][:200]
+                elif f[4] != f[2] or f[5] != f[2]:
+                    why = "after draining the evictable part of the cache the recovered entries read differently: before `%s` after `%s` iteration `%s`" % (f[2][:300], f[4][:300], f[5][:300])
+            if why:
+                bad3 += 1
+                if bad3 <= 3:
+                    ctx.fail("oracle", "C10 oracle: " + why, dict(kind="image", case=c[:6000], mutation=m, observed=a[:1500]))
+        ctx.k_checks["oracle-recovered-entries-survive-cache-drain"] = (bad3 == 0, len(dcases))
+        ctx.count("drain_cases", len(dcases))
+    ctx.cov["evaluations"] = len(cases) + len(dcases)
     ctx.cov["distinct_nontrivial"] = len(set(cases))
     ctx.cov["exhaustive_per_image"] = True
     ctx.cov["rule"] = "for each generated clean image: every cut position 0..len of the newest chunk (all positions when the file has <= 700 bytes, else all boundaries +-1, the first 60 bytes and 200 random ones), zero tails at every record boundary with the listed lengths, both values of truncate_incomplete_record; each followed by writes, flush and a second restart; every case is non-trivial (a damaged image), distinct by case line"
